@@ -371,7 +371,7 @@ structure Profile where
   priority : Option Int     -- value of the PriorityClass named by spec.priorityClassName
   subPrio : Option Int      -- spec.koordinatorPriority
   labels : List (LKey × LStr) := []        -- spec.labels (restricted to LKey; a Go map: keys distinct)
-  keyMap : List (LKey × LKey) := []        -- spec.labelKeysMapping old ↦ new (generated: at most one entry)
+  keyMap : List (LKey × LKey) := []        -- spec.labelKeysMapping old ↦ new (a Go map: generated entries share no key)
   suffixes : List (LKey × LStr) := []      -- spec.labelSuffixes (keys distinct)
   hasPatch : Bool := false                 -- spec.patch.raw != nil (strategic merge + JSON round trip of the pod)
   patchLabels : List (LKey × LStr) := []   -- spec.patch: metadata.labels
